@@ -54,7 +54,7 @@ def main() -> None:
     args = sys.argv[1:]
     if '--import' in args:
         src = Path(args[args.index('--import') + 1])
-        log = ''.join(Path(l).read_text() for l in ('/tmp/verify_all.log', '/tmp/verify3.log', '/tmp/verify4.log', '/tmp/verify5.log') if Path(l).exists())
+        log = ''.join(Path(l).read_text() for l in ('/tmp/verify_all.log', '/tmp/verify3.log', '/tmp/verify4.log', '/tmp/verify5.log', '/tmp/verify6.log') if Path(l).exists())
         for pd in sorted(src.glob('C*/[0-9]')):
             m = re.search(rf"RESULT {re.escape(str(pd))} demo_clean=(\d+) demo_mutant=(\d+) suite='([^']*)'", log)
             if not m:
@@ -64,7 +64,7 @@ def main() -> None:
             if clean != 0 or mut == 0 or '1322 passed' not in suite or '11 failed' not in suite:
                 print('verification failed, skipped:', pd, m.groups())
                 continue
-            tag = '-r5' if 'seedout5' in str(src) else '-r4' if 'seedout4' in str(src) else '-r3' if 'seedout3' in str(src) else '-r2' if 'seedout2' in str(src) else ''
+            tag = '-r6' if 'seedout6' in str(src) else '-r5' if 'seedout5' in str(src) else '-r4' if 'seedout4' in str(src) else '-r3' if 'seedout3' in str(src) else '-r2' if 'seedout2' in str(src) else ''
             dst = SEEDED / f'{pd.parent.name}{tag}-{pd.name}'
             dst.mkdir(parents=True, exist_ok=True)
             for fn in ('patch.diff', 'demo.py', 'notes.md'):
@@ -73,7 +73,7 @@ def main() -> None:
             notes = (pd / 'notes.md').read_text() if (pd / 'notes.md').exists() else ''
             meta = {
                 'property': pd.parent.name,
-                'origin': 'independent fault-seeding sub-agent given only the property text and a scratch worktree of /repo' + (' (round 5: same strict protocol as round 4, launched against the final rule set and the tree after ~115 repairs)' if 'seedout5' in str(src) else ' (round 4: launched after the second strengthening pass of round 3 and the repairs up to F66; given nothing but the property text, so repeats of earlier rounds are possible)' if 'seedout4' in str(src) else' (round 3: launched after the round-2 strengthening and ~40 fix: commits, given the patches of rounds 1 and 2 in order not to repeat them)' if 'seedout3' in str(src) else
+                'origin': 'independent fault-seeding sub-agent given only the property text and a scratch worktree of /repo' + (' (round 6: strict protocol again, after the round-5 strengthening)' if 'seedout6' in str(src) else ' (round 5: same strict protocol as round 4, launched against the final rule set and the tree after ~115 repairs)' if 'seedout5' in str(src) else ' (round 4: launched after the second strengthening pass of round 3 and the repairs up to F66; given nothing but the property text, so repeats of earlier rounds are possible)' if 'seedout4' in str(src) else' (round 3: launched after the round-2 strengthening and ~40 fix: commits, given the patches of rounds 1 and 2 in order not to repeat them)' if 'seedout3' in str(src) else
                                                                                                                                 ' (round 2: launched after the checks were finished, asked to avoid the most obvious fault sites)' if 'seedout2' in str(src) else ''),
                 'needs_to_manifest': _needs(notes),
                 'confirmed': {
